@@ -11,8 +11,8 @@ from .. import build, tlc, cases, judge, tlaval
 from ..core import MachineryError
 
 DFLT = ("dflt",)
-MECHS = ["static", "any", "dynamic", "observe", "anydyn", "decorated"]
-DYNAMIC = ["dynamic", "observe", "anydyn"]
+MECHS = ["static", "any", "dynamic", "observe", "anydyn", "anydyn2", "decorated"]
+DYNAMIC = ["dynamic", "observe", "anydyn", "anydyn2"]
 _cls = {}
 
 
@@ -76,6 +76,8 @@ def get_class(cfg):
     def anytrait(self, name, old, new):
         if name == "x":
             self._rec("any", old, new)
+        elif name == "x2":
+            self._log.append(("any:x2", old, new))
 
     def _rec(self, mech, old, new):
         self._log.append((mech, old, new))
@@ -88,6 +90,20 @@ def get_class(cfg):
         ns["_anytrait_changed"] = anytrait
         ns[magic] = static
         cls = type(name, (HasTraits,), ns)
+    elif cfg["shape"] == "wild":
+        # the attribute is not declared by name: x and x2 both fall under the wildcard x_
+        del ns["x"]
+        ns["x_"] = tr
+        ns["_anytrait_changed"] = anytrait
+        ns[magic] = static
+        cls = type(name, (HasTraits,), ns)
+        # the name x is resolved against the wildcard by its first use, on a throw-away object (observe() wants a
+        # resolved name)
+        tmp = cls.__new__(cls)
+        tmp.__dict__["_log"] = []
+        cls.__init__(tmp)
+        tmp.x = DFLT
+        del tmp
     elif cfg["shape"] == "inherited":
         ns["_anytrait_changed"] = anytrait
         decorated.__name__ = magic
@@ -125,11 +141,35 @@ class World(object):
         cls.__init__(obj)
         self.obj = obj
 
+        self.oneshot = False
+
+        def fired(m):
+            # a one-shot handler removes its own registration when it is called
+            if self.oneshot and m in self.regs:
+                self.register(m, False)
+
         def anydyn(o, n, old, new):
             if n == "x":
+                fired("anydyn")
                 obj._rec("anydyn", old, new)
-        self.h = {"dynamic": lambda o, n, old, new: obj._rec("dynamic", old, new),
-                  "observe": lambda ev: obj._rec("observe", ev.old, ev.new), "anydyn": anydyn}
+            elif n == "x2":
+                obj._log.append(("anydyn:x2", old, new))
+
+        def anydyn2(o, n, old, new):
+            if n == "x":
+                fired("anydyn2")
+                obj._rec("anydyn2", old, new)
+            elif n == "x2":
+                obj._log.append(("anydyn2:x2", old, new))
+
+        def dynamic(o, n, old, new):
+            fired("dynamic")
+            obj._rec("dynamic", old, new)
+
+        def observer(ev):
+            fired("observe")
+            obj._rec("observe", ev.old, ev.new)
+        self.h = {"dynamic": dynamic, "observe": observer, "anydyn": anydyn, "anydyn2": anydyn2}
         self.regs = set()
         for m in regs:
             self.register(m, True)
@@ -141,7 +181,7 @@ class World(object):
             obj.on_trait_change(self.h[m], "x", remove=not on)
         elif m == "observe":
             obj.observe(self.h[m], "x", remove=not on)
-        elif m == "anydyn":
+        elif m in ("anydyn", "anydyn2"):
             obj.on_trait_change(self.h[m], remove=not on)
         else:
             raise MachineryError(m)
@@ -175,6 +215,12 @@ class World(object):
         try:
             if op == "assign":
                 obj.x = self.tok2obj[v]
+            elif op == "assign1":
+                self.oneshot = True
+                try:
+                    obj.x = self.tok2obj[v]
+                finally:
+                    self.oneshot = False
             elif op == "setq":
                 if self.quiet_form == 0:
                     obj.trait_setq(x=self.tok2obj[v])
@@ -202,7 +248,23 @@ class World(object):
         calls = {m: [] for m in MECHS}
         for mech, old, new in obj._log:
             calls[mech].append([self.tok(old), self.tok(new)])
-        return {"cfg": self.cfg, "raising": sorted(obj._raising), "op": op, "v": v, "pre": pre, "post": self.stored(),
+        regsafter = sorted(self.regs)
+        # the sibling attribute x2 (same wildcard in the "wild" shape, an undeclared name elsewhere): handlers of x keep
+        # quiet, every object-level handler hears of it exactly once
+        obj._log.clear()
+        stray = 0
+        try:
+            self.n2 = getattr(self, "n2", 0) + 1
+            obj.x2 = ("x2", self.n2)
+        except Exception:
+            stray = 100
+        stray += sum(1 for mech, _, _ in obj._log if ":" not in mech)
+        # (outside the "wild" shape x2 is an undeclared name: a plain Python attribute, nobody is told)
+        expect = (["any:x2"] + [m + ":x2" for m in ("anydyn", "anydyn2") if m in self.regs]) if self.cfg["shape"] == "wild" else []
+        if sorted(mech for mech, _, _ in obj._log if ":" in mech) != sorted(expect):
+            stray += 10
+        obj._log.clear()
+        return {"regsafter": regsafter, "stray": stray, "cfg": self.cfg, "raising": sorted(obj._raising), "op": op, "v": v, "pre": pre, "post": self.stored(),
                 "exc": exc, "ret": ret, "calls": calls, "regs": regs}
 
 
@@ -235,14 +297,16 @@ def history_lines(seed, ntraces, steps):
     toks = ["v1", "v1e", "v2", "nanA", "nanB", "er", "arrA", "arrB", "none", "dflt", "bad"]
     for t in range(ntraces):
         cfg = {"mode": rnd.choice(["none", "identity", "equality"]), "kind": "trait" if rnd.random() < 0.85 else "event",
-               "typed": rnd.random() < 0.5, "shape": rnd.choice(["plain", "inherited", "bare", "bare"])}
+               "typed": rnd.random() < 0.5, "shape": rnd.choice(["plain", "inherited", "bare", "bare", "wild"])}
         raising = [m for m in MECHS if rnd.random() < 0.25]
         w = World(cfg, raising, regs=[m for m in DYNAMIC if rnd.random() < 0.3])
         w.quiet_form = rnd.randint(0, 1)
         for _ in range(steps):
             u = rnd.random()
-            if u < 0.55:
+            if u < 0.45:
                 r = w.step("assign", rnd.choice(toks))
+            elif u < 0.55:
+                r = w.step("assign1", rnd.choice(toks))
             elif u < 0.75:
                 m = rnd.choice(DYNAMIC)
                 r = w.step("unreg" if m in w.regs else "reg", m)
